@@ -27,15 +27,23 @@ TRUSTED = [
     "Coq 8.16.1 kernel and vm_compute",
     "harness/c10.py: rendering of requests, numbering of terms/graph names, reading the final store through "
     "ConjunctiveGraph(store).quads and store.contexts()",
-    "rdflib's SPARQL parser/translateUpdate (request text -> algebra) and the SELECT engine that produces the solution "
-    "lists handed to the model (property C04's subject)",
+    "rdflib's SPARQL parser/translateUpdate (request text -> algebra; the WHERE algebra of ModifyW operations is read off "
+    "translateUpdate's output node by node)",
+    "for operations whose WHERE is NOT in the fragment BGP/Join/GRAPH (OPTIONAL, UNION, FILTER) and for DELETE WHERE: the "
+    "SELECT engine that produces the solution lists handed to the model (property C04's subject); for ModifyW operations "
+    "nothing of the engine is trusted: the model evaluates the WHERE clause itself (C04's model of evalPart) and the "
+    "specification by the bottom-up algebra",
+    "coq/Sparql (property C04): its model of evaluate.py and its theorem C04_pushdown are reused, not re-proved",
     "rdflib.plugins.stores.memory.Memory add/remove/remove_graph/contexts (properties C01/C02)",
 ]
 ASSUMPTIONS = [
     "rdflib.plugins.sparql.SPARQL_LOAD_GRAPHS is False (USING copies a known graph instead of fetching its IRI)",
     "store is Memory (graph_aware); front ends are exactly Graph, ConjunctiveGraph, Dataset(default_union=False)",
     "blank nodes are not written in INSERT DATA / DELETE DATA (rdflib keeps their labels, outside the model)",
-    "WHERE under WITH alone does not use GRAPH; under USING / USING NAMED (also USING NAMED alone) the solution list is "
+    "ModifyW (WHERE evaluated by the model): any pattern of the fragment under any WITH / USING / USING NAMED combination; "
+    "a named graph without triples contributes no solution (groups are non-empty), so model and specification enumerate "
+    "the graphs that hold quads; WITH without USING keeps every named graph visible to GRAPH",
+    "Modify with a given solution list: WHERE under WITH alone does not use GRAPH; under USING / USING NAMED the solution list is "
     "computed on the dataset SPARQL 1.1 Update 3.1.3 prescribes (default graph = merge of the USING graphs, empty without "
     "USING; named graphs = the USING NAMED graphs) and the pattern is free of GRAPH or GRAPH <one of the USING NAMED graphs>",
     "request texts use absolute IRIs or (case field spell) one PREFIX/BASE prologue per operation with prefixes re-declared "
@@ -47,6 +55,8 @@ ASSUMPTIONS = [
 RULE = (
     "1-3 operations over 1-3 graphs (graph ids 1,2,5 addressable, 3 blank-node named), 3 subjects x 2 predicates x 5 objects; "
     "templates are drawn from variables s,p,o,z,g so that one solution's insertion is another's deletion (swap on 2-cycles); "
+    "55 % of the DELETE/INSERT operations have their WHERE clause (BGP, joins, GRAPH <iri>, GRAPH ?g) evaluated by the "
+    "model (ModifyW), the others get the solution list of a SELECT; CREATE [SILENT] in 8 % of the management operations; "
     "WITH x {none, USING, USING + USING NAMED, USING NAMED only}; 35 % of the cases spell graphs as repeated, interleaved "
     "GRAPH groups (INSERT/DELETE DATA, DELETE WHERE, both templates); "
     "a case is non-trivial when the request changes the store or raises"
@@ -102,6 +112,9 @@ WHERES = [
     ("?s ?p ?o FILTER(isIRI(?o))", False),
     ("GRAPH <urn:g:2> { ?s ?p ?o }", True),
     ("GRAPH <urn:g:5> { ?s ?p ?o }", True),
+    ("?s ?p ?o . GRAPH ?g { ?o ?p ?z }", True),
+    ("GRAPH ?g { ?s <http://e/p> ?o } . ?o ?p ?z", True),
+    ("GRAPH <urn:g:1> { ?s ?p ?o } . GRAPH ?g { ?o ?p ?s }", True),
 ]
 WHERE_OF_GRAPH = {1: 5, 2: 8, 5: 9}  # graph id -> index of the pattern GRAPH <that graph> { ?s ?p ?o }
 
@@ -214,7 +227,7 @@ def r_op(op, split=False):
         return "DELETE DATA { %s }" % r_data(op[1], op[2], split)
     if k == "delwhere":
         return "DELETE WHERE { %s }" % r_tmpl(op[1], split)
-    if k == "modify":
+    if k in ("modify", "modifyw"):
         _, w, ud, un, d, i, wk = op
         s = ""
         if w is not None:
@@ -229,6 +242,8 @@ def r_op(op, split=False):
             s += "USING NAMED %s " % r_graph(c)
         return s + "WHERE { %s }" % r_where(WHERES[wk][0])
     sil = "SILENT " if op[1] else ""
+    if k == "create":
+        return "CREATE %sGRAPH %s" % (sil, r_graph(op[2]))
     if k in ("clear", "drop"):
         return "%s %s%s" % (k.upper(), sil, r_gspec(op[2]))
     return "%s %s%s TO %s" % (k.upper(), sil, r_gd(op[2]), r_gd(op[3]))
@@ -300,13 +315,69 @@ def c_op(op, om):
         return "DeleteData %s %s" % (clist(c_triple(t) for t in op[1]), c_blocks(op[2]))
     if k == "delwhere":
         return "DeleteWhere %s %s" % (c_tmpl(op[1]), c_omega(om))
+    if k == "modifyw":
+        _, w, ud, un, d, i, wk = op
+        return "ModifyW %s %s %s %s %s %s" % (copt(w, cN), clist(cN(c) for c in ud), clist(cN(c) for c in un),
+                                             copt(d, c_tmpl), copt(i, c_tmpl), where_alg(wk))
     if k == "modify":
         _, w, ud, un, d, i, wk = op
         return "Modify %s %s %s %s %s %s" % (copt(w, cN), cbool(ud), cbool(un), copt(d, c_tmpl), copt(i, c_tmpl), c_omega(om))
+    if k == "create":
+        return "Create %s %s" % (cbool(op[1]), cN(op[2]))
     con = {"clear": "Clear", "drop": "Drop", "add": "Add", "move": "Move", "copy": "Copy"}[k]
     if k in ("clear", "drop"):
         return "%s %s %s" % (con, cbool(op[1]), c_gspec(op[2]))
     return "%s %s %s %s" % (con, cbool(op[1]), c_gd(op[2]), c_gd(op[3]))
+
+
+# ---- WHERE clauses evaluated by the model: rdflib's translated algebra (u.where) as a term of C04's [alg]
+_ALG = {}
+
+
+class NotInFragment(Exception):
+    pass
+
+
+def _c_tv(x):
+    from rdflib import Variable
+    if isinstance(x, Variable):
+        return "(Sparql.Algebra.Vr %s)" % cN(VAR_ID[str(x)])
+    return "(Sparql.Algebra.Tm %s)" % cN(tid(x, {}))
+
+
+def _c_alg(n):
+    from collections import OrderedDict
+    nm = n.name
+    if nm == "BGP":
+        return "(Sparql.Algebra.BGP %s)" % clist(ctuple(*(_c_tv(x) for x in t)) for t in n["triples"])
+    if nm == "Join":
+        return "(Sparql.Algebra.Join %s %s %s)" % (cbool(bool(OrderedDict.get(n, "lazy", None))), _c_alg(n["p1"]), _c_alg(n["p2"]))
+    if nm == "Graph":
+        return "(Sparql.Algebra.Graph %s %s)" % (_c_tv(n["term"]), _c_alg(n["p"]))
+    raise NotInFragment(nm)
+
+
+def where_alg(wk):
+    """Coq text of translateUpdate's algebra for WHERE pattern wk; NotInFragment unless BGP / Join / Graph only"""
+    if wk not in _ALG:
+        from rdflib.plugins.sparql.algebra import translateUpdate
+        from rdflib.plugins.sparql.parser import parseUpdate
+        u = translateUpdate(parseUpdate("INSERT { ?s ?p ?o } WHERE { %s }" % WHERES[wk][0])).algebra[0]
+        try:
+            _ALG[wk] = _c_alg(u.where)
+        except NotInFragment:
+            _ALG[wk] = None
+    if _ALG[wk] is None:
+        raise NotInFragment(wk)
+    return _ALG[wk]
+
+
+def in_fragment(wk):
+    try:
+        where_alg(wk)
+        return True
+    except NotInFragment:
+        return False
 
 
 def c_fe(fe):
@@ -381,7 +452,7 @@ class C10(Suite):
     case_ty = "case"
     obs_ty = "obs"
     kf = "kf"
-    kf_ids = {1: "F10f"}
+    kf_ids = {1: "F10f", 2: "F10i", 3: "F10j"}
     corr = ("update.evalUpdate/evalInsertData/evalDeleteData/evalDeleteWhere/evalModify/evalClear/evalDrop/evalAdd/"
             "evalMove/evalCopy/_graphAll/_graphOrDefault, evalutils._fillTemplate")
     quick_n = 900
@@ -461,6 +532,10 @@ class C10(Suite):
                     return "default" if rng.random() < 0.3 else rng.choice([1, 2, 5])
                 kind = rng.choice(["clear", "drop", "add", "move", "copy", "move", "copy"])
                 sil = rng.random() < 0.25
+                if rng.random() < 0.08:
+                    # CREATE [SILENT]: rdflib always fails ("Create not implemented!"); SILENT makes it a no-op
+                    ops.append(["create", rng.random() < 0.7, rng.choice([1, 2, 5])])
+                    continue
                 if kind in ("clear", "drop"):
                     ops.append([kind, sil, gsp()])
                 else:
@@ -499,7 +574,15 @@ class C10(Suite):
             # the swap: what one solution inserts another deletes
             d["t"] = [[["v", 1], ["v", 2], ["v", 3]]]
             i["t"] = [[["v", 3], ["v", 2], ["v", 1]]] + i["t"][:1]
-        return ["modify", w, ud, un, d, i, wk]
+        kind = "modify"
+        if rng.random() < 0.55:
+            # the model evaluates the WHERE clause itself (operation ModifyW): any pattern of the fragment
+            # BGP / Join / GRAPH under any WITH / USING / USING NAMED combination, also where rdflib's
+            # dataset is not the prescribed one (F10i, F10j: model = rdflib, the specification differs)
+            cands = [k for k in range(len(WHERES)) if in_fragment(k) and not (plain and WHERES[k][1])]
+            wk = rng.choice(cands)
+            kind = "modifyw"
+        return [kind, w, ud, un, d, i, wk]
 
     # ------------------------------------------------------------ implementation
     def _fresh(self, case, union):
@@ -647,6 +730,10 @@ class C10(Suite):
              "prologue_changes_within_request": int(case.get("spell") is not None and len(case["ops"]) > 1)}
         for k, o in enumerate(case["ops"]):
             f["op_" + o[0]] = f.get("op_" + o[0], 0) + 1
+            if o[0] == "modifyw":
+                f["modify_where_in_model"] = f.get("modify_where_in_model", 0) + 1
+                if o[2] or o[3]:
+                    f["modify_where_in_model_using"] = f.get("modify_where_in_model_using", 0) + 1
             if o[0] == "modify":
                 om = (case.get("omegas") or [[]] * (k + 1))[k]
                 f["modify_solutions_%s" % ("0" if not om else ("1" if len(om) == 1 else "many"))] = \
@@ -676,7 +763,7 @@ class C10(Suite):
         for i in range(len(case["empty"])):
             yield dict(base, empty=case["empty"][:i] + case["empty"][i + 1:])
         for i, op in enumerate(ops):
-            if op[0] == "modify":
+            if op[0] in ("modify", "modifyw"):
                 for j in (4, 5):
                     tm = op[j]
                     if tm is None:
@@ -691,7 +778,7 @@ class C10(Suite):
                         yield dict(base, ops=ops[:i] + [op[:j] + [tm2] + op[j + 1:]] + ops[i + 1:])
                 if op[1] is not None:
                     yield dict(base, ops=ops[:i] + [[op[0], None] + op[2:]] + ops[i + 1:])
-                if (op[2] or op[3]) and not WHERES[op[6]][1]:  # stay inside the generator's domain
+                if (op[2] or op[3]) and (op[0] == "modifyw" or not WHERES[op[6]][1]):  # stay inside the generator's domain
                     yield dict(base, ops=ops[:i] + [op[:2] + [[], []] + op[4:]] + ops[i + 1:])
 
     def sweep(self):
